@@ -49,7 +49,8 @@ impl DbCfg {
             rollback: true,
             maxlog: *rng.pick(&[1u32, 2, 3, 5, 100]),
             warm_up: rng.chance(1, 2),
-            page_cache: *rng.pick(&[1usize, 1, 4, 256]),
+            // 0 MiB = one page per shard (possible since the repair of F25): every page is re-read from the table all the time
+            page_cache: *rng.pick(&[0usize, 1, 1, 4, 256]),
             leaf_cache: *rng.pick(&[1usize, 1, 4, 256]),
             io_workers: rng.range(1, 3),
             prepopulate: rng.chance(1, 2),
